@@ -177,6 +177,10 @@ func (ir *IntrospectionResolver) resolveType(schema *ast.Schema, typ *ast.Type, 
 				// possible types of interface are types which implement it
 				types := []map[string]interface{}{}
 				for _, t := range schema.GetPossibleTypes(namedType) {
+					// interfaces implementing this interface are not possible types
+					if t.Kind != ast.Object {
+						continue
+					}
 					types = append(types, ir.resolveType(schema, &ast.Type{NamedType: t.Name}, f.SelectionSet))
 				}
 				sortPayload(types)
